@@ -222,6 +222,33 @@ pub fn call(name: &str, args: &[String]) -> Value {
             }
             json!({"evaluations": n, "bad": bad, "meaning": meaning})
         }
+        "range_roundtrip" => {
+            // parse(to_header_string(r)) == r at digit-length boundaries and at the edges of the accepted positions
+            let mut vals: Vec<u64> = vec![0, 1, 9, 10, 11, 99, 100, 999, 1000, 65535, 65536, 4294967295, 4294967296];
+            let mut p = 1u64;
+            for _ in 0..18 { p *= 10; vals.push(p - 1); vals.push(p); }
+            vals.push((1u64 << 63) - 2);
+            vals.push((1u64 << 63) - 1);
+            let mut n = 0u64;
+            let mut bad = vec![];
+            let mut check = |r: s3s::dto::Range| {
+                n += 1;
+                let text = r.to_header_string();
+                let back = s3s::dto::Range::parse(&text);
+                let same = match (&back, &r) {
+                    (Ok(s3s::dto::Range::Int { first: a, last: b }), s3s::dto::Range::Int { first: c, last: d }) => a == c && b == d,
+                    (Ok(s3s::dto::Range::Suffix { length: a }), s3s::dto::Range::Suffix { length: c }) => a == c,
+                    _ => false,
+                };
+                if !same && bad.len() < 5 { bad.push(json!({"range": format!("{r:?}"), "text": text, "back": format!("{back:?}")})); }
+            };
+            for &a in &vals {
+                check(s3s::dto::Range::Int { first: a, last: None });
+                if a > 0 { check(s3s::dto::Range::Suffix { length: a }); }
+                for &b in &vals { if b >= a { check(s3s::dto::Range::Int { first: a, last: Some(b) }); } }
+            }
+            json!({"evaluations": n, "bad": bad})
+        }
         "error_status" => {
             let c = s3s::S3ErrorCode::from_bytes(args[0].as_bytes());
             json!({"known": c.is_some(), "status": c.and_then(|c| c.status_code()).map(|s| s.as_u16())})
